@@ -13,7 +13,7 @@
    holds_chk c id d  : the catalog's check row [id] equals [d] up to ServiceName/ServiceTags,
                        which the catalog copies from its own service row
    refused_svc/chk   : the log contains an ACL refusal of the entry's registration *)
-From Verif Require Import Base.Prelude AE.Model AE.Basics AE.Steps AE.Inv AE.Proofs AE.Conv AE.Hist AE.Witness.
+From Verif Require Import Base.Prelude AE.Model AE.Basics AE.Steps AE.Inv AE.Proofs AE.Any AE.Conv AE.Hist AE.Witness.
 From stdpp Require Import gmap.
 
 (* ---------------------------------------------------------------- convergence *)
@@ -73,6 +73,25 @@ Theorem C16_no_false_insync_full : forall g os oc st c fs st' c' fs' log err,
    (forall id e d, l_chks st' !! id = Some e -> ce_sync e = true -> ce_del e = false -> ce_def e = Some d ->
       holds_chk c' id d \/ refused_chk log id)).
 Proof. exact no_false_insync_full. Qed.
+
+(* For SERVICES both claims (no false in-sync mark, deletions remembered) hold of ANY local state
+   and any catalog, with no hypothesis at all — every fault list, every order. *)
+Theorem C16_services_any_state : forall g os oc st c fs st' c' fs' log err,
+  sync_changes g os oc st c fs = (st', c', fs', log, err) ->
+  (forall id e d, l_svcs st' !! id = Some e -> se_sync e = true -> se_del e = false -> se_def e = Some d ->
+     holds_svc c' id d \/ refused_svc log id \/ l_svcs st !! id = Some e) /\
+  (forall id e, l_svcs st !! id = Some e -> se_del e = true ->
+     (exists e', l_svcs st' !! id = Some e' /\ se_del e' = true) \/ c_svcs c' !! id = None).
+Proof. exact svc_any_changes. Qed.
+
+Theorem C16_services_any_state_full : forall g os oc st c fs st' c' fs' log err,
+  sync_full g os oc st c fs = (st', c', fs', log, err) ->
+  (st' = st /\ c' = c /\ err = true) \/
+  ((forall id e d, l_svcs st' !! id = Some e -> se_sync e = true -> se_del e = false -> se_def e = Some d ->
+      holds_svc c' id d \/ refused_svc log id) /\
+   (forall id e, l_svcs st !! id = Some e -> se_del e = true ->
+      (exists e', l_svcs st' !! id = Some e' /\ se_del e' = true) \/ c_svcs c' !! id = None)).
+Proof. exact svc_any_full. Qed.
 
 (* The local mutators.  "No local change marks an entry in sync that the catalog does not hold"
    is refuted: re-adding an identical definition over an entry that was never pushed
@@ -209,6 +228,8 @@ Print Assumptions C16_converges_rebound_refuted.
 Print Assumptions C16_converges_second.
 Print Assumptions C16_no_false_insync.
 Print Assumptions C16_no_false_insync_full.
+Print Assumptions C16_services_any_state.
+Print Assumptions C16_services_any_state_full.
 Print Assumptions C16_local_add_marks_unsynced_refuted.
 Print Assumptions C16_local_add_service_partial.
 Print Assumptions C16_local_add_check_partial.
